@@ -10,7 +10,7 @@ from .tlc import SPEC, JAR_CP
 
 
 # spec directories whose modules EXTEND modules of other directories
-DEPENDS = {"system": ["codec", "notedata", "beat", "convert", "grouping"]}
+DEPENDS = {"system": ["codec", "notedata", "beat", "convert", "grouping", "timing"]}
 
 
 def main():
